@@ -278,6 +278,13 @@ def generate(seed, tier):
     g = Gen(rv, sets=sort_keys, tuples=dumper in ('Dumper', 'CDumper'), depth=r.choice([1, 2, 3, 4]), width=r.choice([2, 4, 6, 9]),
             share=r.choice([0.0, 0.15, 0.3]), mixed=not sort_keys)
     recipe = g.value(0)
+    if sort_keys and r.random() < 0.04:
+        # the value comes after K small mappings whose keys are NOT mutually comparable (their order legitimately falls back
+        # to insertion order, which is kept fixed here): that must not change how the comparable-key mappings after them
+        # are written, however many there are
+        k = r.choice([1, 5, 31, 32, 33, 40, 64, 100])
+        mixed = [['dict', [[['int', i], ['int', 1]], [['str', 'k%d' % i], ['int', 2]]], values.FIXED_ORDER_IDS[0] + i] for i in range(k)]
+        recipe = ['list', mixed + [recipe], values.FIXED_ORDER_IDS[0] + 5000]
     opts = gen_opts(r, dumper.startswith('C'))
     if not sort_keys:
         opts['sort_keys'] = False
